@@ -39,7 +39,7 @@ COMMENT_TEXT = st.one_of(
     st.sampled_from(["b0 [nm]  kb [kJ mol-1 nm-2]", "[ bonds ]", "[dihedrals]", "see ref. [12]", "charge in [e]",
                      "\u00c5ngstr\u00f6m units", "\u03b1-carbon", "25 \u00b0C", "[ atoms ] \u2013 kept",
                      "page\x0cbreak 1 2 1", "sep\u2028tail 3 4 1", "vt\x0bx", "fs\x1cx gs\x1dx rs\x1ex", "nel\x85x", "ps\u2029x",
-                     '#include "x.itp"', "#ifdef FOO", "#endif", "#", "drawn as C-C\\", "\\", "100% \"quoted\" 'text'", "%d %s {0}"]))
+                     "; doubled semicolon", ";;; beads", ";", " ; x", '#include "x.itp"', "#ifdef FOO", "#endif", "#", "drawn as C-C\\", "\\", "100% \"quoted\" 'text'", "%d %s {0}"]))
 WORD = st.text(st.characters(min_codepoint=33, max_codepoint=126, blacklist_characters=";#[]"),
                min_size=1, max_size=8)
 
